@@ -1,10 +1,10 @@
 package props
 
 import (
-	"os"
 	"go/ast"
 	"go/token"
 	"go/types"
+	"os"
 	"regexp"
 	"strings"
 
@@ -799,7 +799,7 @@ func ruleLinkScanComplete(c *Ctx, rule string) {
 				ast.Inspect(rl.Stmt.Body, func(x ast.Node) bool {
 					switch s := x.(type) {
 					case *ast.CallExpr:
-						if id, isID := ast.Unparen(s.Fun).(*ast.Ident); isID && id.Name == "yield" {
+						if id, isID := ast.Unparen(s.Fun).(*ast.Ident); isID && info.Uses[id] == paramAt(l, 0) {
 							yields++
 						}
 					case *ast.BranchStmt:
@@ -823,9 +823,9 @@ func ruleLinkScanComplete(c *Ctx, rule string) {
 // ---------------------------------------------------------------------------- C10
 
 func extra2C10(c *Ctx) {
-	c.Rule("C10-R6", "an accessor that reads a well-known key without a default (keyValue indexes defaultValue[0] when the key is missing or has another type) is safe only because the decoder owns that key: for every keyValue call without default arguments the constant key is stored by gguf.Decode unconditionally on every successful path, with a value of exactly the accessor's type, after the last store of a file-supplied key (so nothing read from the file can survive under that key)")
+	c.Rule("C10-R8", "an accessor that reads a well-known key without a default (keyValue indexes defaultValue[0] when the key is missing or has another type) is safe only because the decoder owns that key: for every keyValue call without default arguments the constant key is stored by gguf.Decode unconditionally on every successful path, with a value of exactly the accessor's type, after the last store of a file-supplied key (so nothing read from the file can survive under that key)")
 	info := c.P.Pkgs["fs/ggml"].TypesInfo
-	dec := c.Fn("C10-R6", "fs/ggml", "gguf.Decode")
+	dec := c.Fn("C10-R8", "fs/ggml", "gguf.Decode")
 	if dec == nil {
 		return
 	}
@@ -841,7 +841,7 @@ func extra2C10(c *Ctx) {
 			want := info.TypeOf(call)
 			construct := fn.Key() + " keyValue(" + key + ") without default"
 			if !isS {
-				c.Violation("C10-R6", construct, c.Pos(call), "non-constant key read without a default: a missing key panics (index out of range)")
+				c.Violation("C10-R8", construct, c.Pos(call), "non-constant key read without a default: a missing key panics (index out of range)")
 				continue
 			}
 			var store *core.Hit
@@ -861,7 +861,7 @@ func extra2C10(c *Ctx) {
 				store = &h
 			}
 			if store == nil {
-				c.Violation("C10-R6", construct, c.Pos(call), "gguf.Decode does not store "+key+": a file without it makes the accessor panic")
+				c.Violation("C10-R8", construct, c.Pos(call), "gguf.Decode does not store "+key+": a file without it makes the accessor panic")
 				continue
 			}
 			as := store.Node.(*ast.AssignStmt)
@@ -898,10 +898,10 @@ func extra2C10(c *Ctx) {
 			if os.Getenv("VERIF_DEBUG") != "" {
 				println("DBG C10-R6", sameType, uncond, late, len(miss), exitList(c, miss, "miss"))
 			}
-			c.Check("C10-R6", construct, c.Pos(call), sameType && uncond && late, "Decode must store "+key+" unconditionally, as "+types.TypeString(want, nil)+", after the file's own keys: otherwise a file that supplies the key with another type makes "+fn.Name+" panic (outside gin's recovery in /api/create)")
+			c.Check("C10-R8", construct, c.Pos(call), sameType && uncond && late, "Decode must store "+key+" unconditionally, as "+types.TypeString(want, nil)+", after the file's own keys: otherwise a file that supplies the key with another type makes "+fn.Name+" panic (outside gin's recovery in /api/create)")
 		}
 	}
-	c.Expect("C10-R6", "keyValue calls without a default", n, 1)
+	c.Expect("C10-R8", "keyValue calls without a default", n, 1)
 }
 
 // ---------------------------------------------------------------------------- C12
